@@ -18,6 +18,25 @@ CHECKS = {
         design_ref='DESIGN.md 5 / C05',
         technique='Coq proof (induction on expr, lia/nia) + extracted-model correspondence + brute-force oracle',
         note=NOTE_COMMON),
+    'C04': dict(
+        category='proof',
+        text='Coq theorems: the evaluator model returns v iff v is the in-range ideal value (every evaluated constant, variable and '
+             'intermediate in [0,M), no zero divisor, lazy && || ?:), fails exactly otherwise, and that value equals C unsigned-long '
+             'arithmetic mod 2^W for every W with M <= 2^W; the parser model only accepts sentences of the stratified plural.y grammar and '
+             'builds the tree that grammar assigns; with the generated digit limit no ValueError. Completeness of acceptance is not a theorem: '
+             'it is decided by exhaustive three-way comparison (model / real parser / independent plural.y reference) on all token sequences '
+             'of length <= 4 (quick) / 5 (thorough).',
+        design_ref='DESIGN.md 5 / C04',
+        technique='Coq proof (induction on expr / on parser fuel) + extracted-model correspondence + independent reference parser/evaluator',
+        note=NOTE_COMMON + ' rply is modelled, not verified. Known finding D12 (RecursionError on expressions nested >= 300 deep).'),
+    'C06': dict(
+        category='proof',
+        text='Coq theorem by structural induction over the expression grammar, for every modulus M: a returned (O, P) satisfies 1 <= P, 0 <= O and '
+             'the outcome (same value, or failure at both) at n and n+P agrees for all O <= n, n+P < M; plus the multiples and image-in-window corollaries. '
+             'Tied to lib/intexpr.py PeriodEvaluator by correspondence; property brute-forced on the real code for widths <= 6/8.',
+        design_ref='DESIGN.md 5 / C06',
+        technique='Coq proof (induction on expr, gcd/lcm divisibility) + extracted-model correspondence + brute-force oracle',
+        note=NOTE_COMMON + ' Known finding D12.'),
 }
 
 NA_REASON = 'check not built yet (work in progress; see DESIGN.md section 8 for build order)'
